@@ -320,6 +320,50 @@ pub fn json_field(out: &str, key: &str) -> Option<String> {
     let b = rest[a + 1..].find('"')?;
     Some(rest[a + 1..a + 1 + b].to_string())
 }
+/// A small deterministic number derived from the arguments of an op line: selects the *form* of the
+/// configuration handed to the CLI (trailing zero coefficients, further unused polynomials) without
+/// changing its meaning, so that replaying the op line rebuilds the same configuration.
+pub fn variant_of(parts: &[String]) -> u64 {
+    let mut h: u64 = 0xcbf29ce484222325;
+    for p in parts {
+        for b in p.bytes() {
+            h ^= b as u64;
+            h = h.wrapping_mul(0x100000001b3);
+        }
+        h ^= 0xff;
+        h = h.wrapping_mul(0x100000001b3);
+    }
+    (h >> 17) % 6
+}
+/// like `toml_list`, with `zeros` zero coefficients appended (the CLI must normalise them away)
+pub fn toml_list_z(v: &[BigInt], zeros: u64) -> String {
+    let mut w = v.to_vec();
+    for _ in 0..zeros {
+        w.push(BigInt::zero());
+    }
+    toml_list(&w)
+}
+/// the `polynomials = [...]` list of a config: variant 1, 2 ⇒ that many trailing zeros on every list;
+/// variant 3, 4 ⇒ one / two further polynomials after the ones the command uses; 5 ⇒ both
+pub fn toml_polys(polys: &[&[BigInt]], variant: u64) -> String {
+    let zeros = match variant {
+        1 => 1,
+        2 => 2,
+        5 => 1,
+        _ => 0,
+    };
+    let mut items: Vec<String> = polys.iter().map(|f| toml_list_z(f, zeros)).collect();
+    let extra = match variant {
+        3 | 5 => 1,
+        4 => 2,
+        _ => 0,
+    };
+    for k in 0..extra {
+        let e: Vec<BigInt> = if k == 0 { vec![BigInt::from(-2), BigInt::zero(), BigInt::zero(), BigInt::one()] } else { vec![BigInt::from(7), BigInt::one()] };
+        items.push(toml_list(&e));
+    }
+    format!("[{}]", items.join(", "))
+}
 pub fn toml_list(v: &[BigInt]) -> String {
     format!("[{}]", v.iter().map(|x| format!("'{}'", x)).collect::<Vec<_>>().join(", "))
 }
